@@ -39,6 +39,10 @@ pub struct SeqCase {
     pub peer_header: bool,
     pub ops: Vec<SendOp>,
     pub repr: Vec<u8>,
+    /// when > 0 the first send operation carries a binary of this many KiB (larger than the socket buffers: the frame
+    /// cannot be written in one go)
+    #[serde(default)]
+    pub huge_kib: u32,
     /// 0: connected, 1: never connected, 2: closed before the operations, 3: handshake refused (status nok), 4: refused (wrong acknowledgement)
     pub state: u8,
 }
@@ -112,6 +116,21 @@ struct SeqOutcome {
     leftover: usize,
 }
 
+/// the operations as issued: with `huge_kib` the first send's payload is a large binary
+fn effective(c: &SeqCase) -> SeqCase {
+    let mut c = c.clone();
+    if c.huge_kib > 0 {
+        let big = Value::binary(&vec![0xCDu8; c.huge_kib as usize * 1024]);
+        if let Some(op) = c.ops.iter_mut().find(|o| matches!(o, SendOp::Send { .. } | SendOp::RegSend { .. })) {
+            match op {
+                SendOp::Send { payload, .. } | SendOp::RegSend { payload, .. } => *payload = big,
+                _ => {}
+            }
+        }
+    }
+    c
+}
+
 fn seq_run(c: &SeqCase) -> Result<Result<SeqOutcome, String>, BedErr> {
     let c = c.clone();
     run_case(Duration::from_secs(20), move |bed| async move {
@@ -146,16 +165,30 @@ fn seq_run(c: &SeqCase) -> Result<Result<SeqOutcome, String>, BedErr> {
         if c.state == 2 {
             let _ = conn.close().await;
         }
+        // the peer reads while the operations run (a frame larger than the socket buffers cannot complete otherwise)
+        let finished = std::cell::Cell::new(false);
         let mut results = vec![];
-        for op in &c.ops {
-            results.push(apply(&mut conn, op, &mut pk).await);
-        }
+        let ops_side = async {
+            for op in &c.ops {
+                results.push(apply(&mut conn, op, &mut pk).await);
+            }
+            finished.set(true);
+        };
+        let peer_side = async {
+            while !finished.get() {
+                p.poll_in();
+                drain().await;
+                std::thread::sleep(Duration::from_micros(100));
+            }
+        };
+        tokio::join!(ops_side, peer_side);
         let frames = collect_frames(&mut p).await;
         Ok(SeqOutcome { results, frames, leftover: p.deframer.buf.len() })
     })
 }
 
 pub fn seq_oracle(c: &SeqCase) -> Verdict {
+    let c = &effective(c);
     let mark = panic_mark();
     let out = match seq_run(c) {
         Ok(Ok(o)) => o,
@@ -408,8 +441,8 @@ fn op_strategy() -> impl Strategy<Value = SendOp> {
 }
 
 fn seq_strategy() -> impl Strategy<Value = SeqCase> {
-    (any::<bool>(), prop::bool::weighted(0.7), prop::collection::vec(op_strategy(), 1..8), arb_choices(24), prop_oneof![8 => Just(0u8), 1 => Just(1u8), 1 => Just(2u8), 1 => Just(3u8), 1 => Just(4u8)])
-        .prop_map(|(header_mode, peer_header, ops, repr, state)| SeqCase { header_mode, peer_header, ops, repr, state })
+    (any::<bool>(), prop::bool::weighted(0.7), prop::collection::vec(op_strategy(), 1..8), arb_choices(24), prop_oneof![8 => Just(0u8), 1 => Just(1u8), 1 => Just(2u8), 1 => Just(3u8), 1 => Just(4u8)], prop_oneof![60 => Just(0u32), 1 => Just(9000u32), 1 => 5000u32..14000])
+        .prop_map(|(header_mode, peer_header, ops, repr, state, huge_kib)| SeqCase { header_mode, peer_header, ops, repr, state, huge_kib })
 }
 
 fn conc_strategy() -> impl Strategy<Value = ConcCase> {
